@@ -16,6 +16,7 @@ use evenio::handler::{
     RemoveHandler,
 };
 use evenio::mutability::Mutable;
+use evenio::fetch::GetError;
 use evenio::prelude::*;
 use evenio::world::UnsafeWorldCell;
 
@@ -658,6 +659,41 @@ where
                 assert_eq!(claimed, items.len(), "Iter::len disagrees with the items yielded");
                 items.sort();
                 inv.views.push(format!("0#{}{{{}}}", items.len(), items.join(" ")));
+                // random access probes on the first known ids
+                let ids: Vec<EntityId> = ST.with(|s| s.borrow().ids.iter().take(3).copied().collect());
+                let one = |f: &mut Fetcher<Q>, e: EntityId| match f.get_mut(e) {
+                    Ok(i) => format!("10#1{{{}}}", i.render()),
+                    Err(GetError::NoSuchEntity) => "11#0{}".to_string(),
+                    Err(GetError::QueryDoesNotMatch) => "12#0{}".to_string(),
+                };
+                fn many<Q: Query, const N: usize>(f: &mut Fetcher<Q>, es: [EntityId; N]) -> String
+                where
+                    for<'a> Q::This<'a>: Item,
+                {
+                    use evenio::fetch::GetManyMutError as E;
+                    match f.get_many_mut(es) {
+                        Ok(items) => {
+                            let mut v: Vec<String> = items.iter().map(|i| i.render()).collect();
+                            v.sort();
+                            format!("20#{}{{{}}}", v.len(), v.join(" "))
+                        }
+                        Err(E::AliasedMutability) => "21#0{}".to_string(),
+                        Err(E::NoSuchEntity) => "22#0{}".to_string(),
+                        Err(E::QueryDoesNotMatch) => "23#0{}".to_string(),
+                    }
+                }
+                for &e in &ids {
+                    let r = one(&mut f, e);
+                    inv.views.push(r);
+                }
+                if ids.len() >= 2 {
+                    inv.views.push(many(&mut f, [ids[0], ids[1]]));
+                    inv.views.push(many(&mut f, [ids[0], ids[1], ids[0]]));
+                }
+                if ids.len() >= 3 {
+                    inv.views.push(many(&mut f, [ids[1], ids[2], ids[2]]));
+                    inv.views.push(many(&mut f, [ids[2], ids[0], ids[1]]));
+                }
             }
             1 => {
                 let s = <Single<Q> as HandlerParam>::get(st, cx.info, cx.ev, cx.loc, cx.world);
